@@ -181,6 +181,11 @@ FAIL_VALUES = {
 }
 
 
+def _fanout_remove(ctx):
+    from .framework import private_callee
+    return private_callee(ctx, 'FanoutCache', ('clear', 'expire', 'evict', 'cull'))
+
+
 @rule('R2', floor=40, title='FanoutCache/DjangoCache/Deque/Index/recipes data operations never let Timeout escape')
 def r2(ctx):
     summ = timeout_summary(ctx)
@@ -190,7 +195,7 @@ def r2(ctx):
         if ci is None:
             raise AnalysisError('anchor vanished: class %s' % cls)
         for name, f in sorted(ci.methods.items()):
-            if not f.is_public and name not in ('_remove',):
+            if not f.is_public and not (cls == 'FanoutCache' and f is _fanout_remove(ctx)):
                 continue
             lv = summ[f.qual]
             if f.qual in R2_EXEMPT:
@@ -303,7 +308,7 @@ def r3(ctx):
     return obs
 
 
-R4_READERS = [('Cache', '__contains__'), ('Cache', '__iter__'), ('Cache', '__reversed__'), ('Cache', '_iter'),
+R4_READERS = [('Cache', '__contains__'), ('Cache', '__iter__'), ('Cache', '__reversed__'), ('Cache', '<iter-helper>'),
               ('Cache', 'iterkeys'), ('Cache', '__len__'), ('Cache', 'volume')]
 
 
@@ -311,7 +316,11 @@ R4_READERS = [('Cache', '__contains__'), ('Cache', '__iter__'), ('Cache', '__rev
 def r4(ctx):
     obs = []
     for cls, m in R4_READERS:
-        f = ctx.method(cls, m)
+        if m == '<iter-helper>':
+            from .rules_api import _iter_helper
+            f = _iter_helper(ctx)
+        else:
+            f = ctx.method(cls, m)
         bad = None
         for p in ctx.paths(f, 'default'):
             for e in p.trace:
@@ -325,7 +334,7 @@ def r4(ctx):
 
 
 # ---------------------------------------------------------------------- R5
-@rule('R5', floor=2, title='busy-retry loops (retry executor, pragma loop of reset) keep retrying a locked database until their deadline')
+@rule('R5', floor=1, title='busy-retry loops (retry executor, pragma loop of reset) keep retrying a locked database until their deadline')
 def r5(ctx):
     """After `except sqlite3.OperationalError` for 'database is locked' the loop must raise only when
     (clock now) - (clock before the loop) exceeds the limit, and otherwise sleep and try again.  A reversed test or a
@@ -334,12 +343,17 @@ def r5(ctx):
     cands = []
     rp = ctx.prog.roles.get('sql_retry_prop')
     for f in ctx.prog.all_funcs():
-        if f.module != 'core':
+        if f.module != 'core' or f.nested:
             continue
-        src = ast.unparse(f.node)
-        if 'database is locked' in src and f.nested == {} or (rp is not None and f.parent is rp):
-            if 'database is locked' in src:
-                cands.append(f)
+        # a loop that catches sqlite3.OperationalError and sleeps before trying again
+        for w in ast.walk(f.node):
+            if isinstance(w, ast.While) and any(
+                    isinstance(t, ast.Try) and any(
+                        h.type is not None and (dotted(h.type) or '').endswith('OperationalError') and any(
+                            isinstance(c, ast.Call) and (dotted(c.func) or '').endswith('sleep') for c in ast.walk(h))
+                        for h in t.handlers) for t in ast.walk(w)):
+                if f not in cands:
+                    cands.append(f)
     for f in cands:
         ok, why, n, undecided = True, '', 0, False
         for p in ctx.paths(f, 'default'):
